@@ -506,6 +506,7 @@ class C08Rig:
                 else:
                     raise RuntimeError("peer actions not visible on the client socket")
             outs = []
+            kept = []          # (index into outs, the Message object as returned): what was returned stays what it was
             for cl in case["calls"]:
                 try:
                     if cl.get("via") == "api":
@@ -554,6 +555,7 @@ class C08Rig:
                         outs.append(["none", c.connected])
                     else:
                         outs.append(["msg", zero_recv_time(m.header), bytes(m.data).hex(), c.connected])
+                        kept.append((len(outs) - 1, m))
                 except Hang:
                     outs.append(["hang", c.connected])
                     break
@@ -569,7 +571,9 @@ class C08Rig:
                     raise
                 except Exception as e:  # noqa
                     outs.append(["exc", type(e).__name__, "", c.connected])
-            return dict(outs=outs, prelude=prelude_out,
+            mutated = [[i, outs[i][1], zero_recv_time(m.header), outs[i][2], bytes(m.data).hex()] for i, m in kept
+                       if (zero_recv_time(m.header), bytes(m.data).hex()) != (outs[i][1], outs[i][2])]
+            return dict(outs=outs, mutated=mutated, prelude=prelude_out,
                         reported_subs=sorted(int(x) for x in c.subscribed_types) if pre else None)
         finally:
             stop.set()
